@@ -7,6 +7,7 @@ import numpy as np
 import sympy
 
 from ..gen import circuits as GC
+from ..gen import siblings as SB
 from ..gen import symbols as GS
 from ..ref import linalg as L
 
@@ -102,8 +103,13 @@ def _atoms(p):
     return GS.symbols_of(p)
 
 
+def _skey(s):
+    """total order on symbols: same-name symbols with different assumptions are different symbols"""
+    return (s.name, str(sorted(s.assumptions0.items())))
+
+
 def _assignments(symbols, rng, k=3):
-    symbols = sorted(symbols, key=lambda s: (s.name, str(sorted(s.assumptions0.items()))))
+    symbols = sorted(symbols, key=_skey)
     return [{s: sympy.Float(rng.uniform(0.3, 2.7), 20) for s in symbols} for _ in range(k)]
 
 
@@ -735,13 +741,13 @@ def install(mon, reach):
 DEF_SYMBOLS = ["a", "b", "c", "omega", "kappa"]
 
 
-def rand_def(rng, name="Foo"):
+def rand_def(rng, name="Foo", nq=None, nparams=None, syms=None):
     """custom gate definition with a symbolic matrix over 1-3 own symbols"""
     from orquestra.quantum.circuits import CustomGateDefinition
 
-    nq = rng.choice([1, 1, 2])
-    nparams = rng.randint(1, 3)
-    syms = tuple(sympy.Symbol(n) for n in rng.sample(DEF_SYMBOLS, nparams))
+    nq = nq or rng.choice([1, 1, 2])
+    nparams = nparams or rng.randint(1, 3)
+    syms = syms or tuple(sympy.Symbol(n) for n in rng.sample(DEF_SYMBOLS, nparams))
     d = 2 ** nq
     if nq == 1 and rng.random() < 0.6:
         th = syms[0]
@@ -844,7 +850,7 @@ FRESH = ["u", "v", "w", "z_1"]
 def rand_map(rng, used, kind=None, fresh=None, values=None):
     """symbol map over the symbols ``used``.  kind: empty / partial / total / superfluous / partial_extra /
     assumptions (same name, real=True: a different symbol, i.e. absent)"""
-    used = sorted(used, key=lambda s: s.name)
+    used = sorted(used, key=_skey)
     fresh = fresh or [sympy.Symbol(n) for n in FRESH]
     kind = kind or rng.choice(["partial", "partial", "total", "total", "superfluous", "partial_extra", "empty", "assumptions"])
     if kind == "empty" or (not used and kind in ("partial", "total")):
@@ -870,7 +876,7 @@ def rand_map(rng, used, kind=None, fresh=None, values=None):
 
 def chained_map(rng, used):
     """values mention other keys: swaps, shifts, chains"""
-    used = sorted(used, key=lambda s: s.name)
+    used = sorted(used, key=_skey)
     if len(used) < 2:
         used = used + [sympy.Symbol("aux_k")]
     ks = rng.sample(used, rng.randint(2, min(3, len(used))))
@@ -916,9 +922,81 @@ def rand_ops(rng, n_ops, symbols, width, defs=None, nongate=0.0, wrapped=0.4):
     return ops
 
 
+def _gate_key(g):
+    """what a gate IS (wrappers, innermost gate, typed parameters) - own identity, for telling siblings apart"""
+    mods, b = _chain(g)
+    f = getattr(b, "matrix_factory", None)
+    fid = id(f.gate_definition) if isinstance(f, _G.CustomGateMatrixFactory) else id(f)
+    return (tuple(mods), getattr(b, "name", None), fid,
+            tuple((type(p).__name__, sympy.srepr(p) if isinstance(p, sympy.Basic) else repr(p)) for p in b.params))
+
+
+def sibling_tally(ops):
+    """collisions among the DIFFERENT gates of a list of operations: which non-unique keys they share"""
+    gates = {}
+    for op in ops:
+        if isinstance(op, _G.GateOperation):
+            gates.setdefault(_gate_key(op.gate), op.gate)
+    gs = list(gates.values())
+    out = set()
+    for i, g1 in enumerate(gs):
+        for g2 in gs[i + 1:]:
+            try:
+                same_params = tuple(g1.params) == tuple(g2.params)
+            except Exception:
+                same_params = False
+            if same_params and g1.name == g2.name:
+                out.add("equal name and parameters")
+            elif same_params:
+                out.add("equal parameters")
+            if str(g1) == str(g2):
+                out.add("equal text")
+    if len({id(op.gate) for op in ops if isinstance(op, _G.GateOperation)}) < \
+            sum(isinstance(op, _G.GateOperation) for op in ops):
+        out.add("one gate object on several operations")
+    return sorted(out)
+
+
+def plain_circuit(rng, symbols, max_ops=6):
+    """circuit of independently drawn operations"""
+    from orquestra.quantum.circuits import Circuit
+
+    width = rng.randint(1, 3) if rng.random() < 0.8 else rng.randint(4, 5)
+    defs = [rand_def(rng, "Foo")] if rng.random() < 0.3 else None
+    nongate = 0.15 if rng.random() < 0.3 else 0.0
+    ops = rand_ops(rng, rng.randint(1, max_ops), symbols, width, defs, nongate)
+    if rng.random() < 0.25:  # all-symbolic circuit: the sympy circuit matrix is obtainable
+        ops = [op for op in ops if isinstance(op, _G.GateOperation) and gate_symbols(op.gate)] or \
+            [rand_base_gate(rng, symbols, "symbol", None, 1)(0)]
+    return Circuit(ops, n_qubits=width + (rng.randint(0, 2) if rng.random() < 0.3 else 0)) if rng.random() < 0.7 else Circuit(ops)
+
+
+def sibling_circuit(rng, symbols, max_ops=6):
+    """circuit of sibling gates (rv.gen.siblings) sharing 1-2 parameter values, with a few unrelated operations"""
+    from orquestra.quantum.circuits import Circuit
+
+    width = rng.choice([2, 3, 3, 3, 4])
+    style = rng.choice(["symbol", "symbol", "expr", "expr", "numeric", "any"])
+    shared = [rand_param(rng, symbols, style) for _ in range(rng.choice([1, 1, 2]))]
+    if rng.random() < 0.25:
+        shared.append(SB.twin_param(rng, shared[0]))
+    defs = None
+    if rng.random() < 0.2:  # two definitions under one name (a circuit holding both cannot be serialised, but binds)
+        d1 = rand_def(rng, "Foo")
+        order = tuple(d1.params_ordering)
+        d2 = rand_def(rng, "Foo", d1._n_qubits, len(order), tuple(reversed(order)) if rng.random() < 0.5 else order)
+        defs = [d1, d2]
+    ops = SB.sibling_ops(rng, width, shared, rng.randint(2, max_ops), defs)
+    for _ in range(rng.choice([0, 0, 1, 2])):
+        ops.insert(rng.randint(0, len(ops)), rand_ops(rng, 1, symbols, width, None, nongate=0.3)[0])
+    extra = rng.randint(1, 2) if rng.random() < 0.2 else 0
+    c = Circuit(ops, n_qubits=width + extra) if extra or rng.random() < 0.5 else Circuit(ops)
+    return c, sibling_tally(c.operations)
+
+
 # ============================================================================ driver checks
 def _numeric_assign(symbols, rng):
-    return {s: rng.uniform(0.3, 2.7) for s in sorted(symbols, key=lambda s: s.name)}
+    return {s: rng.uniform(0.3, 2.7) for s in sorted(symbols, key=_skey)}
 
 
 def _gate_np(g, assign):
@@ -984,6 +1062,10 @@ def _same_ops(c1, c2, rng):
         pa, pb = _op_params(a), _op_params(b)
         if len(pa) != len(pb):
             return f"{describe_op(a)} vs {describe_op(b)}"
+        if isinstance(a, _G.GateOperation):
+            why = gate_identity_mismatch(a.gate, b.gate)
+            if why:
+                return f"{describe_op(a)} vs {describe_op(b)}: {why}"
         for x, y in zip(pa, pb):
             if GS.is_python_number(x) or GS.is_python_number(y):
                 if not (GS.is_python_number(x) or isinstance(x, sympy.Expr)) or abs(complex(x) - complex(y)) > 1e-10 * max(1, abs(complex(x))):
@@ -1076,15 +1158,18 @@ def run_case(ctx):
         except Exception:
             pass
         return
-    if cls in ("circuit", "chained", "twostep"):
-        width = rng.randint(1, 3) if rng.random() < 0.8 else rng.randint(4, 5)
-        defs = [rand_def(rng, "Foo")] if rng.random() < 0.3 else None
-        nongate = 0.15 if rng.random() < 0.3 else 0.0
-        ops = rand_ops(rng, rng.randint(1, 6), symbols, width, defs, nongate)
-        if rng.random() < 0.25:  # all-symbolic circuit: the sympy circuit matrix is obtainable
-            ops = [op for op in ops if isinstance(op, G.GateOperation) and gate_symbols(op.gate)] or \
-                [rand_base_gate(rng, symbols, "symbol", None, 1)(0)]
-        c = Circuit(ops, n_qubits=width + (rng.randint(0, 2) if rng.random() < 0.3 else 0)) if rng.random() < 0.7 else Circuit(ops)
+    if cls == "rebind":
+        return run_rebind(ctx, symbols)
+    if cls in ("circuit", "chained", "twostep", "siblings"):
+        tally, tag = None, ""
+        if cls == "siblings":  # the three circuit flows on circuits of colliding gates
+            cls = rng.choice(["circuit", "circuit", "circuit", "twostep", "chained"])
+            c, tally = sibling_circuit(rng, symbols)
+            tag = f"siblings[{'; '.join(tally) or 'none'}]/"
+            for t in tally:
+                ctx.mon.note(f"siblings: different gates with {t}")
+        else:
+            c = plain_circuit(rng, symbols)
         used = set()
         for op in c.operations:
             for p in _op_params(op):
@@ -1092,7 +1177,8 @@ def run_case(ctx):
         params = [p for op in c.operations for p in _op_params(op)]
         if cls == "circuit":
             m, mk = rand_map(rng, used)
-            ctx.describe(f"circuit: {describe_circuit(c)} bind[{mk}] {describe_map(m)}", is_nontrivial(params, m, used))
+            ctx.describe(f"{tag}circuit: {describe_circuit(c)} bind[{mk}] {describe_map(m)}",
+                         is_nontrivial(params, m, used) if tally is None else bool(tally))
             list(c.free_symbols)
             b = _bind(c, m)
             if b is not None:
@@ -1104,7 +1190,7 @@ def run_case(ctx):
             return
         if cls == "chained":
             m, style = chained_map(rng, used or set(symbols))
-            ctx.describe(f"chained[{style}]: {describe_circuit(c)} bind {describe_map(m)}", True)
+            ctx.describe(f"{tag}chained[{style}]: {describe_circuit(c)} bind {describe_map(m)}", True)
             ctx.tag("chained")
             b = _bind(c, m)
             if b is not None:
@@ -1112,7 +1198,7 @@ def run_case(ctx):
                 check_circuit_unitary(ctx, c, m, b)
             return
         # two-step vs one-step binding with disjoint maps whose values do not mention any key
-        ul = sorted(used, key=lambda s: s.name)
+        ul = sorted(used, key=_skey)
         rng.shuffle(ul)
         cut = rng.randint(0, len(ul))
         fresh = [sympy.Symbol(n) for n in FRESH]
@@ -1120,8 +1206,8 @@ def run_case(ctx):
         m2 = {k: rand_value(rng, fresh) for k in ul[cut:] if rng.random() < 0.8}
         if rng.random() < 0.3:
             m2[sympy.Symbol("unused")] = 1.5
-        ctx.describe(f"twostep: {describe_circuit(c)} bind {describe_map(m1)} then {describe_map(m2)}",
-                     is_nontrivial(params, m1, used) or is_nontrivial(params, m2, used))
+        ctx.describe(f"{tag}twostep: {describe_circuit(c)} bind {describe_map(m1)} then {describe_map(m2)}",
+                     (is_nontrivial(params, m1, used) or is_nontrivial(params, m2, used)) if tally is None else bool(tally))
         b1 = _bind(c, m1)
         b12 = _bind(b1, m2) if b1 is not None else None
         once = _bind(c, {**m1, **m2})
